@@ -14,6 +14,7 @@ import (
 	"sort"
 	"strconv"
 	"strings"
+	"sync/atomic"
 	"testing"
 	"time"
 )
@@ -69,6 +70,10 @@ type Worker struct {
 	steplog *os.File // debugging aid: every step line
 	nsteps0 int64
 
+	// termination watchdog (real clock, used for nothing but detecting a call that never returns)
+	watchOp  atomic.Pointer[string]
+	watchSeq atomic.Uint64
+
 	// first race-class violation seen in any execution (race reports are not perfectly repeatable:
 	// the detector keeps a bounded access history per memory word)
 	anyRace *Violation
@@ -86,6 +91,7 @@ func NewWorker(t *testing.T, property, test string) *Worker {
 	if s := os.Getenv("VERIF_WORKER_SEED"); s != "" {
 		w.Seed, _ = strconv.ParseUint(s, 10, 64)
 	}
+	go w.watchdog()
 	if p := os.Getenv("VERIF_STEPLOG"); p != "" {
 		w.steplog, _ = os.Create(p)
 	}
@@ -121,6 +127,49 @@ func (w *Worker) flushEvent() {
 		sig = w.viol.Signature
 	}
 	fmt.Fprintf(w.evlog, "%d %016x %d %s\n", w.Runs, w.runHash, w.StepsTot-w.nsteps0, sig)
+}
+
+// WatchBegin marks the start of a call into the code under test; WatchEnd its return. If a call does not
+// return within the limit the watchdog reports "did-not-terminate" as a violation and ends the process (a
+// goroutine stuck in a loop cannot be unwound).
+func (w *Worker) WatchBegin(op *string) {
+	w.watchSeq.Add(1)
+	w.watchOp.Store(op)
+}
+
+// WatchEnd marks the return of the call started by WatchBegin.
+func (w *Worker) WatchEnd() { w.watchOp.Store(nil) }
+
+func (w *Worker) watchdog() {
+	limit := 20 * time.Second
+	if v := ParamInt("call_timeout_s", 0); v > 0 {
+		limit = time.Duration(v) * time.Second
+	}
+	var lastSeq uint64
+	var since time.Time
+	for {
+		time.Sleep(250 * time.Millisecond)
+		op := w.watchOp.Load()
+		seq := w.watchSeq.Load()
+		if op == nil || seq != lastSeq {
+			lastSeq, since = seq, time.Now()
+			continue
+		}
+		if time.Since(since) < limit {
+			continue
+		}
+		// the main goroutine is stuck inside the code under test: report and leave
+		v := &Violation{Property: w.Property, Signature: "did-not-terminate|" + *op,
+			Detail: fmt.Sprintf("%s did not return within %v (the process is ended; replay re-executes the same worker seed)", *op, limit),
+			Step:   len(w.steps), Steps: append([]string(nil), w.steps...), Config: w.config}
+		res := result{Status: "violation", Property: w.Property, Test: w.Test, Seed: w.Seed, WallS: time.Since(w.start).Seconds(),
+			Runs: w.Runs, Steps: w.StepsTot, Faults: map[string]int64{}, Probes: map[string]int64{}, KnownHits: map[string]int64{}, KnownText: map[string]string{}, Violation: v}
+		if w.out != "" {
+			b, _ := json.MarshalIndent(res, "", " ")
+			_ = os.WriteFile(w.out, b, 0o644)
+		}
+		os.Exit(1)
+	}
 }
 
 // Begin starts one execution (one rapid check).
